@@ -1,7 +1,7 @@
 import TapkeeVerif.Proofs.CoverBuildLoop
 /-!
 C02, cover tree construction, part 3: `batch_insert` meets its contract `InsOk` (induction on the recursion depth), and
-`batch_create` returns a well-formed tree (`CoverTree.wfTree`, the hypothesis of `cover_query_exact_partial`) that stores every
+`batch_create` returns a well-formed tree (`CoverTree.wfTree`, the hypothesis of `cover_query_exact`) that stores every
 sample exactly once.
 
 Hypotheses: the callback vanishes on the diagonal and is not negative (every metric; symmetry and the triangle
